@@ -386,7 +386,7 @@ func init() {
 		NBatches: func(t core.Tier) int { return n(t, 16, 64) },
 		Race:     func(t core.Tier) bool { return t == core.Thorough },
 		Floors: func(t core.Tier) map[string]int {
-			return map[string]int{"evaluations": n(t, 300000, 1800000), "distinct_nontrivial": n(t, 100000, 500000), "gen_hostile": n(t, 8000, 300000), "gen_named-error": 40, "gen_deep-recursion": 70, "gen_splitter": 100000, "error_messages": 30}
+			return map[string]int{"evaluations": n(t, 300000, 700000), "distinct_nontrivial": n(t, 100000, 250000), "gen_hostile": n(t, 8000, 90000), "gen_named-error": 40, "gen_deep-recursion": 70, "gen_splitter": 100000, "error_messages": 30}
 		},
 		Run: func(c *core.Ctx) {
 			rng := c.Rand("cases")
@@ -401,7 +401,7 @@ func init() {
 				}
 			})
 			progs := corpus.All()
-			total := n(c.Tier, 22000, 900000) / c.NBatches
+			total := n(c.Tier, 22000, 240000) / c.NBatches // thorough runs on the race build (5-10x slower)
 			for i := 0; i < total; i++ {
 				switch r := rng.Intn(10); {
 				case r < 6:
